@@ -474,7 +474,7 @@ func enumerate(tier string, shard, shards int, emit func(Case) bool) bool {
 	return true
 }
 
-var broken = []string{"0...5", ".5", "1.", "0..1.", "-.5..0", "", " ", "|", "1|", "|1", "1||2", "1..", "..5", "1...5", "1..2..3", "abc", "1a", "mix", "--1", "1 2", "1.2.3", "..", "1..|2", "min..", "maximum", "1,2", "1-2", "1 .. 2 |", "0..1|..|3"}
+var broken = []string{"-+5", "+-5", "++5", "-+5..5", "min..-+5", "1..+-2", "-", "+", "- 5", "0...5", ".5", "1.", "0..1.", "-.5..0", "", " ", "|", "1|", "|1", "1||2", "1..", "..5", "1...5", "1..2..3", "abc", "1a", "mix", "--1", "1 2", "1.2.3", "..", "1..|2", "min..", "maximum", "1,2", "1-2", "1 .. 2 |", "0..1|..|3"}
 
 func gen(t *rapid.T) Case {
 	c := Case{Via: "module"}
